@@ -218,8 +218,8 @@ func newRuleguardChecker(info *linter.CheckerInfo, ctx *linter.CheckerContext) (
 		filenames, err := filepath.Glob(strings.TrimSpace(filePattern))
 		if err != nil {
 			// The only possible returned error is ErrBadPattern, when pattern is malformed.
-			log.Printf("ruleguard init error: %+v", err)
-			continue
+			// A malformed pattern matches no file.
+			return nil, fmt.Errorf("ruleguard init error: '%s': %+v", strings.TrimSpace(filePattern), err)
 		}
 		if len(filenames) == 0 {
 			return nil, fmt.Errorf("ruleguard init error: no file matching '%s'", strings.TrimSpace(filePattern))
@@ -231,12 +231,14 @@ func newRuleguardChecker(info *linter.CheckerInfo, ctx *linter.CheckerContext) (
 					return nil, fmt.Errorf("ruleguard init error: %+v", err)
 				}
 				log.Printf("ruleguard init error, skip %s: %+v", filename, err)
+				continue
 			}
 			if err := engine.Load(loadContext, filename, bytes.NewReader(data)); err != nil {
 				if h.failOnParseError(err) {
 					return nil, fmt.Errorf("ruleguard init error: %+v", err)
 				}
 				log.Printf("ruleguard init error, skip %s: %+v", filename, err)
+				continue
 			}
 			loaded++
 		}
